@@ -30,8 +30,10 @@ ASSUMPTIONS = [
     "conicoid sag z = c rho^2 / (1 + sqrt(1 - (1+k) c^2 rho^2)) and its gradient c/phi (x, y) (harness closed forms) "
     "define the plane / sphere / conic / off-axis conic surfaces",
     "for Q-type surfaces the surface is defined by the sag returned by Q2d_and_der (its value and slopes are C09's "
-    "subject); the 'true normal' is a central difference of that sag (law tolerance 1e-6 instead of 1e-9); base conic "
-    "constant k = 0 and dense coefficient vectors of length >= 2 only, so that C19 does not depend on C09/C10 defects",
+    "subject); the 'true normal' is a central difference of that sag (law tolerance 1e-6 instead of 1e-9, buckets suffixed "
+    "':qtype-normal'); dense coefficient vectors of length >= 2 only, so that C19 does not depend on the C09/C10 defects "
+    "of short / one-family coefficient sets; conic bases k != 0 rely on off_axis_conic_sigma_der being consistent with "
+    "off_axis_conic_sigma (repository commit 0686ab1)",
     "index pairs above 0.98 of the critical angle, rays that miss the real-sag region, and rays that land at more than "
     "0.9 of the real-sag radius are outside the quantifier and removed by construction (counted)",
     "only the sheet of the conicoid that contains the vertex is 'the surface' (the sag formula describes nothing else)",
@@ -73,7 +75,7 @@ class Model:
         self.k = float(spec.get('k', 0.0))
         if self.kind == 'plane':
             self.c, self.k = 0.0, 0.0
-        if self.kind in ('sphere', 'qsym', 'q2d'):
+        if self.kind == 'sphere':
             self.k = 0.0
         self.lim = rho_limit(self.c, self.k)
         self.rho_real = math.inf if (self.c == 0 or 1 + self.k <= 0) else 1 / (abs(self.c) * math.sqrt(1 + self.k))
@@ -442,6 +444,7 @@ def check_step(ctx, mdl, typ, n_in, n_out, P0, S0, P1, S1, j, spec, onaxis):
     nrm = mdl.normal(P1[:, 0], P1[:, 1])
     ci = dot(S0, nrm)
     lawtol = LAW_TOL_Q if mdl.q is not None else LAW_TOL
+    qsuf = ':qtype-normal' if mdl.q is not None else ''
     norm = np.linalg.norm(S1, axis=1)
     if typ == 'refl':
         i = int(np.argmax(np.abs(norm - 1)))
@@ -449,7 +452,7 @@ def check_step(ctx, mdl, typ, n_in, n_out, P0, S0, P1, S1, j, spec, onaxis):
         want = S0 - 2 * ci[:, None] * nrm
         err = np.abs(S1 - want).max(axis=1)
         i = int(np.argmax(err))
-        ctx.require(err[i] <= lawtol, 'reflect:law',
+        ctx.require(err[i] <= lawtol, 'reflect:law' + qsuf,
                     '%s: S\'=%s, mirror image of S=%s about n=%s is %s (err %.3g)' % (where, _fmt(S1[i]), _fmt(S0[i]), _fmt(nrm[i]), _fmt(want[i]), err[i]))
         return
     # refraction: far side first (orientation of the normal), then unit length, then vector Snell law
@@ -470,7 +473,7 @@ def check_step(ctx, mdl, typ, n_in, n_out, P0, S0, P1, S1, j, spec, onaxis):
     tout = S1u - dot(S1u, nrm)[:, None] * nrm
     err = np.abs(n_in * tin - n_out * tout).max(axis=1)
     i = int(np.argmax(err))
-    ctx.require(err[i] <= lawtol * max(n_in, n_out), 'refract:snell',
+    ctx.require(err[i] <= lawtol * max(n_in, n_out), 'refract:snell' + qsuf,
                 '%s: n sin i = %.12g, n\' sin i\' = %.12g (tangential mismatch %.3g) for S=%s S\'=%s n=%s' % (
                     where, n_in * np.linalg.norm(tin[i]), n_out * np.linalg.norm(tout[i]), err[i], _fmt(S0[i]), _fmt(S1[i]), _fmt(nrm[i])))
 
@@ -512,7 +515,7 @@ def surface_s(kinds, maxtilt, zpos):
              'P': st.tuples(_i(-50, 50, 10), _i(-50, 50, 10), zpos).map(list), 'R': tilt_s(maxtilt)}
         if kind != 'plane':
             d['c'] = st.one_of(_i(-50, 50, 1000), st.sampled_from([0.05, -0.05, 0.02, -0.0125]))
-        if kind in ('conic', 'offaxis'):
+        if kind in ('conic', 'offaxis', 'qsym', 'q2d'):
             d['k'] = st.one_of(_i(-300, 100, 100), st.sampled_from([-1.0, 0.0, 1.0, -0.5]))
         if kind == 'offaxis':
             d['off'] = st.tuples(st.sampled_from(['x', 'y']), st.integers(-100, 100).filter(lambda v: v != 0).map(lambda v: v / 100)).map(list)
